@@ -569,3 +569,92 @@ func (g *Graph) cleanEdge(cond ast.Expr) int {
 	}
 	return 0
 }
+
+// CountMask is a set of path counts: bit0 = zero occurrences, bit1 = exactly one, bit2 = two or more.
+type CountMask uint8
+
+// ExitCount is the set of possible occurrence counts at one exit of the function.
+type ExitCount struct {
+	Node ast.Node // *ast.ReturnStmt, or nil for falling off the end
+	Pos  token.Pos
+	Mask CountMask
+}
+
+// CountOnPaths counts occurrences of an event on every path: classify returns, for one CFG node, how many events it
+// performs and whether it performs an action that requires exactly one prior event ("use"). It returns the count mask at
+// every exit and the positions of uses that can happen with a count other than one.
+func (g *Graph) CountOnPaths(classify func(n ast.Node) (events int, use bool)) (exits []ExitCount, badUses []token.Pos) {
+	in := map[*cfg.Block]CountMask{}
+	shift := func(m CountMask, k int) CountMask {
+		for ; k > 0; k-- {
+			var o CountMask
+			if m&1 != 0 {
+				o |= 2
+			}
+			if m&2 != 0 {
+				o |= 4
+			}
+			if m&4 != 0 {
+				o |= 4
+			}
+			m = o
+		}
+		return m
+	}
+	work := []*cfg.Block{g.Entry()}
+	in[g.Entry()] = 1
+	exitSeen := map[ast.Node]int{}
+	badSeen := map[token.Pos]bool{}
+	for len(work) > 0 {
+		b := work[len(work)-1]
+		work = work[:len(work)-1]
+		m := in[b]
+		ended := false
+		for _, n := range b.Nodes {
+			ev, use := classify(n)
+			if use && ev == 0 && m != 2 && !badSeen[n.Pos()] {
+				badSeen[n.Pos()] = true
+				badUses = append(badUses, n.Pos())
+			}
+			m = shift(m, ev)
+			if use && ev > 0 && m != 2 && !badSeen[n.Pos()] {
+				// event and use in one node (e.g. a helper that sets the header and then writes): judged after the event
+				badSeen[n.Pos()] = true
+				badUses = append(badUses, n.Pos())
+			}
+			if ret, ok := n.(*ast.ReturnStmt); ok {
+				if i, ok := exitSeen[ret]; ok {
+					exits[i].Mask |= m
+				} else {
+					exitSeen[ret] = len(exits)
+					exits = append(exits, ExitCount{Node: ret, Pos: ret.Pos(), Mask: m})
+				}
+				ended = true
+				break
+			}
+		}
+		if ended {
+			continue
+		}
+		if len(b.Succs) == 0 {
+			if endsInNoReturn(g.Info, b) {
+				continue
+			}
+			key := ast.Node(g.U.body())
+			if i, ok := exitSeen[key]; ok {
+				exits[i].Mask |= m
+			} else {
+				exitSeen[key] = len(exits)
+				exits = append(exits, ExitCount{Node: nil, Pos: g.U.body().Rbrace, Mask: m})
+			}
+			continue
+		}
+		for _, s := range b.Succs {
+			if in[s]|m != in[s] {
+				in[s] |= m
+				work = append(work, s)
+			}
+		}
+	}
+	return exits, badUses
+}
